@@ -1362,10 +1362,21 @@ def verify_variadic_attr_size(
         )
 
     for l, (name, d) in zip(def_sizes, defs):
+        if l < 0:
+            raise VerifyException(
+                f"expected a non-negative size for {name}, but got {l}"
+            )
         if isinstance(d, OptionalDef) and l not in (0, 1):
             raise VerifyException(f"expected 0 or 1 values for {name}, but got {l}")
         if not isinstance(d, VariadicDef) and l != 1:
             raise VerifyException(f"expected 1 value for {name}, but got {l}")
+
+    length = len(get_op_constructs(op, construct))
+    if sum(def_sizes) != length:
+        raise VerifyException(
+            f"sum of {option.attribute_name} is {sum(def_sizes)}, but the operation "
+            f"has {get_plural_name(length, get_construct_name(construct))}"
+        )
 
 
 def verify_variadic_same_size(
